@@ -49,6 +49,13 @@ func (r *RouteRegistry) RegisterProxyRoute(route string, handler http.HandlerFun
 	r.registerWithMethod(route, wrappedHandler, description, method, true)
 }
 
+// RegisterProtectedRoute registers a route that carries client traffic to the backends and
+// therefore gets the full security chain (rate and size limits) like a proxy route, but
+// without the route-prefix handling of RegisterProxyRoute.
+func (r *RouteRegistry) RegisterProtectedRoute(route string, handler http.HandlerFunc, description, method string) {
+	r.registerWithMethod(route, handler, description, method, true)
+}
+
 func (r *RouteRegistry) registerWithMethod(route string, handler http.HandlerFunc, description, method string, isProxy bool) {
 	r.routes[route] = RouteInfo{
 		Handler:     handler,
